@@ -193,7 +193,46 @@ pub fn mixed_set(g: &mut Gen, n: usize) -> Vec<[f64; 4]> {
     v
 }
 
+/// two operators of one kind with different parameters are two operators: what one computes does not depend on
+/// the other having been made or used first (nothing is shared between them that depends on the parameters) -
+/// judged by the relations the parameters stand for (a false origin is a translation of the plane)
+fn siblings(g: &mut Gen, thorough: bool) {
+    use super::proj;
+    for _ in 0..(if thorough { 12 } else { 2 }) {
+        for name in proj::PROJECTIONS {
+            let mut d = proj::random(&mut g.rng, name);
+            if !d.has_xy {
+                continue;
+            }
+            if d.x_0 == 0.0 {
+                d.x_0 = 250000.0;
+            }
+            let pts = proj::points(&mut g.rng, &d, 5);
+            let ex = format!("{},{}", crate::wire::fbits(d.x_0), crate::wire::fbits(d.y_0));
+            let (a, b) = (d.def(), d.def_with(&d.ellps, d.lon_0, d.k_0, 0.0, 0.0));
+            // in both orders: whichever is used first must not leave anything behind for the other
+            for (a, b, ex) in [(a.clone(), b.clone(), ex.clone()), (b, a, format!("{},{}", crate::wire::fbits(-d.x_0), crate::wire::fbits(-d.y_0)))] {
+                g.push(
+                    format!("S_C13\torigin\t{}\t{}\t{}\t{}", crate::wire::escape(&a), crate::wire::escape(&b), ex, crate::wire::data_of(&pts)),
+                    "oracle-siblings",
+                    true,
+                );
+                g.push(super::op_line("default", &[], &[], &a, "apply", "F", &crate::wire::data_of(&pts)), "model-siblings", true);
+            }
+        }
+        let pts: Vec<[f64; 4]> = (0..4).map(|_| [g.rng.uniform(-1e6, 1e6), g.rng.uniform(-1e6, 1e6), g.rng.uniform(-1e3, 1e3), 2020.0]).collect();
+        for (a, b, x, y) in [("helmert x=3 y=4", "helmert x=0", 3.0, 4.0), ("helmert x=-250 y=17", "helmert y=0", -250.0, 17.0), ("helmert y=0", "helmert x=-250 y=17", 250.0, -17.0)] {
+            g.push(
+                format!("S_C13\torigin\t{}\t{}\t{},{}\t{}", crate::wire::escape(a), crate::wire::escape(b), crate::wire::fbits(x), crate::wire::fbits(y), crate::wire::data_of(&pts)),
+                "oracle-siblings",
+                true,
+            );
+        }
+    }
+}
+
 pub fn generate(g: &mut Gen, thorough: bool) {
+    siblings(g, thorough);
     let rounds = if thorough { 40 } else { 4 };
     for round in 0..rounds {
         for def in OPS {
